@@ -117,7 +117,9 @@ func TestVerifReplay(t *testing.T) {
 							o.SetName("generated-" + strings.ToLower(o.GetObjectKind().GroupVersionKind().Kind))
 							return nil
 						})),
-						WithComposedConnectionDetailsFetcher(ConnectionDetailsFetcherFn(func(_ context.Context, _ resource.ConnectionSecretOwner) (managed.ConnectionDetails, error) { return nil, nil })),
+						WithComposedConnectionDetailsFetcher(ConnectionDetailsFetcherFn(func(_ context.Context, _ resource.ConnectionSecretOwner) (managed.ConnectionDetails, error) {
+							return nil, nil
+						})),
 						WithComposedReadinessChecker(ReadinessCheckerFn(func(_ context.Context, _ ConditionedObject, _ ...ReadinessCheck) (bool, error) { return true, nil })),
 					)
 					ptc.client = resource.ClientApplicator{Client: c, Applicator: apply}
